@@ -1,4 +1,6 @@
 (* Kit/GenTypes.v -- small enumerations shared by the generated files and the models *)
 Inductive expansion := ExpRepeat | ExpTile.
+(* comparison used by the improvement test of ValidationLoss *)
+Inductive cmpop := QLt | QLe | QGt | QGe.
 (* where DataGeneratorParameter takes the samples of one key from *)
 Inductive pstore := PUnset | PTable | PTableAsColumn | PRangeGrid | PRangeUniform | PErr.
